@@ -258,6 +258,17 @@ def resolveGoP (d : DirRd) : Nat → Bytes → Nat → Prog Nat
 
 def DirRd.resolveP (d : DirRd) (path : Bytes) : Prog Nat := resolveGoP d (path.length + 1) path d.rootRef
 
+/-- a directory listing as clients produce it: `open_dir` (pure), then `read` call after `read` call with the
+per-call cursor, until the end or the first error -/
+def listSession (d : DirRd) : Nat → Rd → List (Entry × Nat) → Session (RdRes × Rd) (Except Status (List (Entry × Nat)))
+  | 0, _, _ => .done (.error loopFuelSt)
+  | fuel + 1, it, acc =>
+    .call (d.readP it) fun r =>
+      match r with
+      | .error e => .done (.error e)
+      | .ok (.eof, _) => .done (.ok acc)
+      | .ok (.ent e iref, it') => listSession d fuel it' (acc ++ [(e, iref)])
+
 /-! ### the xattr reader (`xattr/xattr_reader.c`) -/
 
 /-- `sqfs_xattr_reader_t` without its two meta readers; `loaded` = `kvrd != NULL` -/
